@@ -140,6 +140,18 @@ func (c *Ctx) buildTypeBatches(sel shapeSel) []TypeBatch {
 			batches = append(batches, b)
 		}
 	}
+	// two items of one package must not ask the same plugin for mutually assignable types under
+	// different names (goderive rejects that as a duplicate by design)
+	dedupeBatches(batches)
+	for bi := range batches {
+		var keep []pgen.TItem
+		for _, it := range batches[bi].Items {
+			if len(it.Ops) > 0 {
+				keep = append(keep, it)
+			}
+		}
+		batches[bi].Items = keep
+	}
 	return batches
 }
 
@@ -176,4 +188,17 @@ func (c *Ctx) buildTypeBatchesMulti(sel shapeSel, opSets func(t *pgen.Type) [][]
 		batches[bi].Items = items
 	}
 	return batches
+}
+
+// commonExtras are shapes every type-directed check includes once, regardless of sampling: named
+// slice / map / array / pointer types (a generator that looks at the declared instead of the
+// underlying type goes wrong exactly there), embedded structs, types with derived Equal/Compare
+// methods, named bool / uint8, and types from two imported packages with the same name (the second
+// one gets a file-local alias in derived.gen.go).
+func commonExtras(s *pgen.Std) []*pgen.Type {
+	return []*pgen.Type{s.NSlice, s.NMap, s.NArr, s.NPtr, pgen.Ptr(s.NSlice), pgen.Slice(s.NSlice), pgen.Map(pgen.B("string"), s.NMap),
+		s.SE, pgen.Ptr(s.SE), s.SEq, pgen.Slice(s.SEq), s.NBool, pgen.Slice(s.NBool), s.NU8, pgen.Slice(s.NU8),
+		s.XDupA, pgen.Ptr(s.XDupB), pgen.Slice(s.XDupB), s.XN, pgen.Map(s.XN, s.XDupA),
+		pgen.Slice(pgen.B("uint8")), pgen.Array(0, pgen.B("int")), pgen.Array(1, s.SP), pgen.Array(3, pgen.Ptr(pgen.B("string"))),
+		pgen.Ptr(pgen.Ptr(s.SV)), pgen.Ptr(pgen.Ptr(pgen.B("int"))), pgen.Map(pgen.B("string"), pgen.Array(2, s.SP))}
 }
